@@ -97,6 +97,31 @@ Theorem c12_template_embedded : forall isln lower (eval_expr : ExScanner.text ->
 Proof. exact template_embedded_stmt. Qed.
 Print Assumptions c12_template_embedded.
 
+(* Sentence 1, an expression that never closes (hunt finding C12/1, repaired in scanner.go): b1 as above, then "@(",
+   then e in which the scanner, started after the "@(", reaches the end of the input with a parenthesis still
+   open (unterminated: parentheses inside text literals do not count, a literal still open at the end swallows the
+   rest).  Nothing is evaluated, no error is collected, and the WHOLE input is body text: the output is
+   unescape_at b1, "@(", unescape_at e.  No condition on what follows an '@' inside e: after the unterminated "@("
+   nothing starts an expression any more.  Witness: template_unterminated_witness. *)
+Theorem c12_body_after_unterminated : forall isln lower (eval_expr : ExScanner.text -> option ExScanner.text) tops b1 e,
+  isln 0 = false -> isln r_dot = false -> isln r_at = false ->
+  nulfree b1 -> nulfree e ->
+  no_start isln lower (Some tops) b1 = true -> at_open b1 = false -> unterminated e ->
+  template_with isln lower eval_expr tops (b1 ++ r_at :: r_lparen :: e) =
+  Ok (unescape_at b1 ++ r_at :: r_lparen :: unescape_at e, O).
+Proof. exact template_unterminated_stmt. Qed.
+Print Assumptions c12_body_after_unterminated.
+
+(* ... in particular when no closing parenthesis follows the "@(" at all *)
+Theorem c12_body_after_unclosed_paren : forall isln lower (eval_expr : ExScanner.text -> option ExScanner.text) tops b1 e,
+  isln 0 = false -> isln r_dot = false -> isln r_at = false ->
+  nulfree b1 -> nulfree e ->
+  no_start isln lower (Some tops) b1 = true -> at_open b1 = false -> ~ In r_rparen e ->
+  template_with isln lower eval_expr tops (b1 ++ r_at :: r_lparen :: e) =
+  Ok (unescape_at b1 ++ r_at :: r_lparen :: unescape_at e, O).
+Proof. exact template_no_rparen_stmt. Qed.
+Print Assumptions c12_body_after_unclosed_paren.
+
 (* Sentence 2, embedded: the literal between arbitrary body text b1 (as above) and an arbitrary rest b2 *)
 Theorem c12_literal_embedded : forall isln lower printable ctx b1 s b2,
   isln 0 = false -> isln r_dot = false -> isln r_at = false -> printable 10 = false ->
